@@ -1041,12 +1041,34 @@ class GroupByTransform(GroupByApply):
         return functools.partial(groupby_slice_transform, func=self.func)
 
 
-def _fillna(group, *, what, **kwargs):
-    return getattr(group, what)(**kwargs)
+def groupby_slice_fill(
+    df,
+    grouper,
+    key,
+    what,
+    args=None,
+    group_keys=GROUP_KEYS_DEFAULT,
+    dropna=None,
+    observed=None,
+    **kwargs,
+):
+    # Call the groupby method itself: ``transform(func)`` returns nothing for a
+    # partition in which every group key is missing, ``ffill``/``bfill`` keep
+    # those rows like they do on the whole frame
+    dropna = {"dropna": dropna} if dropna is not None else {}
+    observed = {"observed": observed} if observed is not None else {}
+    g = df.groupby(grouper, group_keys=group_keys, **observed, **dropna)
+    if key:
+        g = g[key]
+    return getattr(g, what)(**kwargs)
 
 
 class GroupByBFill(GroupByTransform):
-    func = staticmethod(functools.partial(_fillna, what="bfill"))
+    what = "bfill"
+
+    @functools.cached_property
+    def grp_func(self):
+        return functools.partial(groupby_slice_fill, what=self.what)
 
     def _simplify_up(self, parent, dependents):
         if isinstance(parent, Projection):
@@ -1054,7 +1076,7 @@ class GroupByBFill(GroupByTransform):
 
 
 class GroupByFFill(GroupByBFill):
-    func = staticmethod(functools.partial(_fillna, what="ffill"))
+    what = "ffill"
 
 
 class GroupByShift(GroupByApply):
